@@ -1506,6 +1506,32 @@ def assert_unwind_safe_call(ex, args, callee):
     return f
 
 
+def _tls_init_fn(ex, key_name):
+    """The `__rust_std_internal_init_fn` the `thread_local!` expansion emits right after the key constant."""
+    names = list(ex.prog.funcs)
+    if key_name not in ex.prog.funcs:
+        raise Unsupported('thread-local key %s not found' % key_name)
+    i = names.index(key_name)
+    for n in names[i + 1:i + 4]:
+        if re.sub(r'#\d+$', '', n).endswith('__rust_std_internal_init_fn'):
+            return n
+    raise Unsupported('initialiser of thread-local %s not found (const-initialised or unusual thread_local! form)' % key_name)
+
+
+@stub('LocalKey::with', 'LocalKey::try_with')
+def localkey_with(ex, args, callee):
+    key = ex.deref_all(args[0])
+    if not (isinstance(key, Native) and key.rty == 'LocalKey'):
+        raise Unsupported('LocalKey::with on %r' % (key,))
+    tls = ex.out.setdefault('tls', {})
+    if key.state not in tls:
+        # first access on this thread: run the initialiser (one thread per explored path)
+        ex.stats.stubs.add('thread_local!(%s): per-thread slot, lazily initialised on first access' % key.state)
+        tls[key.state] = Cell(ex.call(_tls_init_fn(ex, key.state), []), 'tls:' + key.state)
+    r = call_callable(ex, args[1], [Ref(tls[key.state], (), False)])
+    return ok(r) if 'try_with' in callee else r
+
+
 @stub('Arc::downgrade')
 def arc_downgrade(ex, args, callee):
     a = ex.deref_all(args[0])
